@@ -89,8 +89,8 @@ C04_THEOREMS = [
 PROPS["C18"] = {
     "translators": ["consts", "tower"],
     "post_translate": untranslatable_obligations,
-    "lean_targets": ["JediVerif.Properties.C18"] + targets_if_exist("JediVerif.Properties.C18b"),
-    "theorems": lambda: tower_theorems({"alias"}) + module_theorems("JediVerif.Properties.C18", "Jedi.C18") + module_theorems("JediVerif.Properties.C18b", "Jedi.C18"),
+    "lean_targets": ["JediVerif.Properties.C18"] + targets_if_exist("JediVerif.Properties.C18b", "JediVerif.Properties.C18c"),
+    "theorems": lambda: tower_theorems({"alias"}) + module_theorems("JediVerif.Properties.C18", "Jedi.C18") + module_theorems("JediVerif.Properties.C18b", "Jedi.C18") + module_theorems("JediVerif.Properties.C18c", "Jedi.C18"),
     "streams": lambda seed, tier: [
         {"cfg": c, "name": g, "kind": "pair", "lines": alias_pairs(gen(g, seed, n if tier == "quick" else 4 * n, tier))}
         for c in cfgs(tier, ["asm", "portable64"], ["asm", "asm+nobmi2", "asm-O0", "portable64", "portable64-O0", "portable32", "portable32-O0"])
